@@ -77,6 +77,7 @@ func cmdCheck(args []string) int {
 	verbose := fs.Bool("v", false, "verbose")
 	noReplay := fs.Bool("no-replay", false, "skip native replay/validation (debugging)")
 	budget := fs.Duration("budget", 0, "per-harness wall-clock budget override")
+	noIfConv := fs.Bool("no-ifconv", false, "disable if-conversion (debugging)")
 	twin := fs.Bool("twin", false, "vacuity twin: negate every final assertion (must be violated)")
 	fs.Parse(args)
 	if *id == "" {
@@ -98,6 +99,7 @@ func cmdCheck(args []string) int {
 		cfg.seed, _ = strconv.ParseInt(s, 10, 64)
 	}
 	_ = twin
+	cfg.noIfConv = *noIfConv
 
 	harnessDir := filepath.Join(*verif, "harness")
 	rels, names, err := scanHarnesses(harnessDir, *id)
